@@ -99,10 +99,16 @@ def obs_events(chk):
     rng = np.random.RandomState(1200 + chk.seed)
     batch = obs.Batch('ObsC12')
     reps = 40 if chk.tier == 'quick' else 400
-    for rep in range(reps):
-        N = int(rng.choice([3, 5, 8, 16, 33, 64, 128, 200]))
+    # every (length, datatype) combination first (lengths on both sides of any size-dependent path), then random ones
+    sizes = [3, 5, 8, 16, 33, 64, 127, 128, 129, 200]
+    grid = [(N, c) for N in sizes for c in (False, True)]
+    for rep in range(reps + len(grid)):
+        if rep < len(grid):
+            N, cplx = grid[rep]
+        else:
+            N = int(rng.choice(sizes))
+            cplx = bool(rng.randint(2))
         p = int(rng.randint(1, min(N - 1, 30) + 1))
-        cplx = bool(rng.randint(2))
         kind = rng.randint(4)
         t = np.arange(N)
         if kind == 0:
